@@ -54,21 +54,32 @@ def fanout_program(rng):
                      'id': gen.next_id('s')},
                 ]))
         roots.append({'name': 'w%d' % index, 'steps': steps})
+    final_changes = []
     if rng.random() < 0.5:
         # one comparison object that is negated again and again: in a block that is left, and
         # later in a plain wait - whatever the collector has done to the first negation meanwhile
         for index in range(rng.randint(1, 3)):
             shared = {'k': 'tracked', 'i': rng.randrange(2), 'cmp': rng.choice(['lt', 'le', 'ne']),
                       'v': rng.randint(1, 3), 'share': 'neg%d' % index}
+            left_at = rng.choice([0.5, 1])
             steps = [
                 {'op': 'scope', 'id': gen.next_id('s'), 'n': {'k': 'inv', 'a': dict(shared)},
                  'catch': False, 'children': [], 'body': [
-                     {'op': 'wait', 'n': {'k': 'delay', 'd': rng.choice([0.5, 1])},
+                     {'op': 'wait', 'n': {'k': 'delay', 'd': left_at},
                       'id': gen.next_id('s')}]},
                 {'op': 'wait', 'n': {'k': 'delay', 'd': rng.choice([0.5, 1])},
                  'id': gen.next_id('s')},
                 {'op': 'wait', 'n': {'k': 'inv', 'a': dict(shared)}, 'id': gen.next_id('s')}]
             roots.insert(rng.randrange(len(roots) + 1), {'name': 'n%d' % index, 'steps': steps})
+            # ... while somebody else makes a comparison of his own on the same value in
+            # between; one last change wakes both of them in one time step
+            roots.insert(rng.randrange(len(roots) + 1), {'name': 'm%d' % index, 'steps': [
+                {'op': 'wait', 'n': {'k': 'delay', 'd': left_at + 0.25}, 'id': gen.next_id('s')},
+                {'op': 'wait', 'n': {'k': 'tracked', 'i': shared['i'], 'v': shared['v'], 'cmp': {
+                    'lt': 'ge', 'le': 'gt', 'ne': 'eq'}[shared['cmp']]}, 'id': gen.next_id('s')}]})
+            final_changes.append({'op': 'settracked', 'i': shared['i'],
+                                  'v': shared['v'] + (0 if shared['cmp'] == 'ne' else 1),
+                                  'id': gen.next_id('s')})
     if rng.random() < 0.4:
         # connectives in which the same condition *objects* occur more than once, next to
         # activities that wait for those objects one by one
@@ -108,6 +119,9 @@ def fanout_program(rng):
         else:
             driver.append({'op': 'wait', 'n': {'k': 'delay', 'd': rng.choice([0.5, 1, 1])},
                            'id': gen.next_id('s')})
+    if final_changes:
+        driver.append({'op': 'wait', 'n': {'k': 'ge', 't': 9}, 'id': gen.next_id('s')})
+        driver.extend(final_changes)
     roots.insert(rng.randrange(len(roots) + 1), {'name': 'driver', 'steps': driver})
     return {'objects': gen.objects, 'roots': roots, 'start': 0, 'till': None}
 
